@@ -10,13 +10,13 @@ CONSTANTS
   SelSet <- Sels2
   KBSet = {"nokb", "kb"}
   ResSet = {"byiss"}
-  AudNonceSet = {"none", "ok", "aud2", "n2", "onlyaud", "npre"}
+  AudNonceSet = {"none", "ok", "aud2", "n2", "onlyaud", "npre", "nempty"}
   ForgedSet = {"new"}
   Forged <- ForgedSel
   WantOther = TRUE
   AdvMoves = {"MoveKB", "StripKB", "AlterKB", "ResignKB", "ForgeKB", "AddDisc", "DropDisc", "SwapDiscs"}
   AdvKeys = {"KE2", "S2", "H2"}
-  KBResignKeys = {"H2", "HE2", "K1"}
+  KBResignKeys = {"H2", "HE2", "K1", "H1"}
   PlanIdx = {1, 3}
   MaxAdv = 2
   MaxDiscs = 8
